@@ -5,7 +5,6 @@ CONSTANTS
   MaxOps = 4
   DeleteStopsAt = {}
   IndexStopsAt = {}
-  ReuseIds = FALSE
-INVARIANTS ForestInv PatchInv WalkIsLastVersion IndexIsFresh
-PROPERTIES OthersUntouched IdsMonotone
+  ReuseIds = TRUE
+INVARIANTS IndexIsFresh
 CHECK_DEADLOCK FALSE
